@@ -129,6 +129,20 @@ class LocalFix:
             return top_of(ty)
         l, p = op['l'], op['p']
         ty = op.get('ty')
+        if p and l != self.self_local:
+            # a field of a struct / closure environment held in a local (a captured copy of an optimiser field, a value carried
+            # in a spliced helper's struct): where definition tracing resolves the place, read that instead
+            if not hasattr(self, '_tr'):
+                from .mirutil import Tracer
+                self._tr = Tracer(self.body)
+            o = self._tr.origin(op)
+            if o['o'] == 'const' and not o.get('p'):
+                return self.read(dict(o['c'], k='const'))
+            if o['o'] == 'arg' and o['l'] == self.self_local:
+                return self.read({'k': 'copy', 'l': o['l'], 'p': o['p'], 'ty': ty})
+            if o['o'] in ('local', 'call', 'rvalue') and not [e for e in o.get('p', []) if e not in ('deref', 'ref')] and \
+                    o.get('l') is not None and o['l'] != l:
+                return self.read({'k': 'copy', 'l': o['l'], 'p': [], 'ty': ty})
         if l == self.self_local:
             fp = field_path(p)
             if len(fp) >= 1 and fp[0] in self.fenv:
